@@ -402,6 +402,85 @@ def _check_batch_outcome(w: World, got: Tuple[Any, ...], calls: List[gen.Logical
                         f'{op}[first failing call {first_fail}]', ctx)
 
 
+def fam_concurrent(w: World) -> None:
+    """Two or three callers share ONE asynchronous client (and one server); their calls overlap in virtual time."""
+    import asyncio
+    ch = w.ch
+    cfg = _config(w)
+    cfg['client_async'] = True
+    n = 2 + ch.draw(2, 'callers')
+    calls = [gen.logical_call(ch, f't{k}') for k in range(n)]
+    _plan_pauses(w, calls)
+    notations = []
+    for c in calls:
+        opts = SINGLE_NOTIFY_NOTATIONS if c.notification else SINGLE_CALL_NOTATIONS + ['batch']
+        notations.append(ch.choice(opts, 'notation'))
+    delays = [ch.choice(gen.PAUSES, 'caller.delay') for _ in calls]
+    w.scenario = {'cfg': cfg, 'calls': [c.describe() for c in calls], 'notations': notations, 'delays': delays}
+    w.nontrivial = True
+    seed_generators(w)
+    script = [{'pre': ch.choice(gen.PAUSES, 'net.pre'), 'post': ch.choice(gen.PAUSES, 'net.post')} for _ in range(n)]
+    st = Stack(w, True, cfg['server_async'], cfg['flavour'],
+               client_kwargs={'id_gen_impl': ID_GENERATORS[cfg['id_gen']], 'strict': cfg['strict']}, script=script)
+    cl = st.client
+    results: Dict[int, Tuple[Any, ...]] = {}
+
+    async def one(k: int, c: gen.LogicalCall, notation: str) -> None:
+        await asyncio.sleep(delays[k])
+        try:
+            if c.notification:
+                if notation == 'notify':
+                    v = await cl.notify(c.method, *c.args, **c.kwargs)
+                else:
+                    v = await cl.send(pjrpc.Request(c.method, list(c.args) or dict(c.kwargs) or None, None))
+            elif notation == 'call':
+                v = await cl.call(c.method, *c.args, **c.kwargs)
+            elif notation == 'dunder':
+                v = await cl(c.method, *c.args, **c.kwargs)
+            elif notation == 'proxy':
+                v = await getattr(cl.proxy, c.method)(*c.args, **c.kwargs)
+            elif notation == 'batch':
+                b = cl.batch
+                b.add(c.method, *c.args, **c.kwargs)
+                v = (await b.call())[0]
+            else:
+                resp = await cl.send(pjrpc.Request(c.method, list(c.args) or dict(c.kwargs) or None, f'h{k}'))
+                v = resp.result
+            results[k] = ('value', v)
+        except JsonRpcError as e:
+            results[k] = ('error', e)
+        except Exception as e:  # noqa: BLE001
+            results[k] = ('raise', e)
+
+    async def main() -> None:
+        await asyncio.gather(*(one(k, c, nt) for k, (c, nt) in enumerate(zip(calls, notations))))
+
+    assert st.loop is not None
+    st.loop.run_until_complete(main())
+    if len(st.net.sent) != n:
+        w.violate('C07.wire.count', f'{len(st.net.sent)} documents on the wire for {n} concurrent operations',
+                  kind='concurrent', id_gen=cfg['id_gen'])
+    for k, c in enumerate(calls):
+        ctx = {'notation': notations[k], 'id_gen': cfg['id_gen'], 'method': c.method, 'kind': 'concurrent',
+               'notification': c.notification, 'strict': cfg['strict']}
+        got = results.get(k, ('raise', RuntimeError('caller did not finish')))
+        op = f'concurrent {notations[k]}({c.method})'
+        if got[0] == 'raise' and isinstance(got[1], TypeError) and len(st.net.sent) < n:
+            w.violate('C07.wire.encode', f'{op}: request could not be encoded: {got[1]}', exc='TypeError', **ctx)
+            return
+        if c.notification:
+            if got[0] != 'value' or got[1] is not None:
+                w.violate('C07.notification', f'{op}: a notification must return None and raise nothing, got {got[0]} '
+                          f'{got[1]!r}', outcome=got[0], **ctx)
+        else:
+            _check_call_outcome(w, got, c, JsonRpcError, op, ctx)
+    _check_executions(w, st, calls, 'concurrent ops', {'kind': 'concurrent', 'id_gen': cfg['id_gen']})
+    starts = [r['seq'] for r in w.history if r['kind'] == 'wire.send']
+    ends = [r['seq'] for r in w.history if r['kind'] == 'wire.deliver']
+    if len(starts) >= 2 and ends and starts[1] < ends[0]:
+        w.probe('calls_overlapped')
+
+
 def systematic(tier: str):
     """Every (client kind, dispatcher kind and flavour, id generator, strict flag) configuration, several seeds each."""
     reps = 8 if tier == 'quick' else 60
@@ -415,10 +494,10 @@ def systematic(tier: str):
                                    'cfg.id_gen': [idg], 'cfg.nonstrict': [ns]}
 
 
-FAMILIES = {'e2e.single': fam_single, 'e2e.batch': fam_batch}
+FAMILIES = {'e2e.single': fam_single, 'e2e.batch': fam_batch, 'e2e.concurrent': fam_concurrent}
 SYSTEMATIC = {'e2e.single': systematic, 'e2e.batch': systematic}
 PLAN = {
-    'quick': {'e2e.single': 30000, 'e2e.batch': 30000},
-    'thorough': {'e2e.single': 20000, 'e2e.batch': 20000},
+    'quick': {'e2e.single': 30000, 'e2e.batch': 30000, 'e2e.concurrent': 15000},
+    'thorough': {'e2e.single': 20000, 'e2e.batch': 20000, 'e2e.concurrent': 45000},
 }
 THOROUGH_BUDGET_S = 600
